@@ -3,6 +3,8 @@
 -/
 import UtreexoVerif.Driver.Arith
 import UtreexoVerif.Driver.Forest
+import UtreexoVerif.Driver.Alias
+import UtreexoVerif.Driver.Conc
 
 namespace UtreexoVerif.Driver
 open Std
@@ -20,7 +22,15 @@ def handleLine (line : String) : M Unit := do
   | "cupdate" :: rest => handleCUpdate line rest
   | "cundo" :: rest => handleCUndo line rest
   | ["cresync"] => count "cresync" line
+  | "alias" :: rest => handleAlias line rest
+  | "later" :: rest => handleLater line rest
+  | "aliasinfo" :: rest => handleAliasInfo line rest
   | ["enc", tag, res] => count ("enc:" ++ tag) line (res == "accepted")
+  | "session" :: _ => pure ()   -- start-of-scenario marker (bin/check cuts replay excerpts there)
+  | "conc" :: rest => handleConc line rest
+  | "concw" :: rest => handleConcW line rest
+  | "concstress" :: rest => handleConcStress line rest
+  | ["conctable"] => handleConcTable line
   | _ => parseError line
 
 partial def loop (h : IO.FS.Stream) : M Unit := do
